@@ -46,7 +46,7 @@ var numberLits = []string{
 
 var stringLits = []string{
 	`""`, `"a"`, `"foo"`, `"bar"`, `"hello world"`, `"<script>"`, `"a&b"`, `"\u003c"`, `"\u2028"`, "\"\u2028\"", `"\n"`, `"\\"`, `"\""`, `"\/"`,
-	`"\ud83d\ude00"`, "\"\U0001F600\"", `"\ud800"`, `"\udc00x"`, `"é"`, `"\u00e9"`, `"tab\there"`, `"\b\f"`, `"null"`, `"0"`, `"~0~1"`, `"a/b"`,
+	`"\ud83d\ude00"`, "\"\U0001F600\"", `"\ud800"`, `"\udc00x"`, `"\udc00\udc00"`, `"\ud800\ud800\udc00"`, `"\udbff\udfff"`, `"\ud83dx"`, `"\ude00\ud83d"`, `"\uD83D\uDE00\uDE00"`, `"é"`, `"\u00e9"`, `"tab\there"`, `"\b\f"`, `"null"`, `"0"`, `"~0~1"`, `"a/b"`,
 	`"\u0000"`, `"\u001f"`, `"` + "\x7f" + `"`, `"100% sure"`, `"%s %d %v"`, `"%%"`, `"%!s(MISSING)"`, `"$1 ${x} \\1"`, `"'; --"`, `"a\u0000b"`,
 }
 
